@@ -89,11 +89,13 @@ def structures(tier):
             sts.append({'m': 1, 'split': [1], 'threads': tms[2], 'filler': 0, 'blocks': seq})
         for tm in tms:
             sts.append({'m': 2, 'split': [1, 1], 'threads': tm, 'filler': 3, 'blocks': ['strings', 'logs', 'logs2']})
+    sts.append({'kind': 'two-dumps', 'blocks2': [['kext1', 'dyld1', 'codes1', 'procs', 'images'], ['kext2', 'dyld2', 'codes2']]})
+    sts.append({'kind': 'two-dumps', 'blocks2': [['kext1', 'kext2', 'dyld1', 'dyld2'], []]})
     return sts
 
 
 def weight(st):
-    return st['filler'] * 5 + st['m']
+    return st.get('filler', 0) * 5 + st.get('m', 1)
 
 
 def expected_metadata(blocks):
@@ -125,7 +127,31 @@ def expected_metadata(blocks):
     return codes, kexts, dyld, procs, images, logs, strings
 
 
+def run_two_dumps(ctx, st):
+    """a second dump parsed by a second parser object in the same process exposes its own sections only"""
+    from pykdebugparser.kd_buf_parser import KdBufParser
+    recs = [ctx.bytes('rec%d' % i, 64) for i in range(2)]
+    outs = []
+    for i, blocks in enumerate(st['blocks2']):
+        data = V.v3_file([(0x77 + i, 7 + i, b'proc')], [[recs[i]]], [BLOCKS[nm] for nm in blocks], between=bytes(8))
+        p = KdBufParser(SymMap() if ctx.symbolic else {}, SymMap() if ctx.symbolic else {})
+        try:
+            out = list(p.parse(make_stream(data)))
+        except Exception as e:      # noqa
+            ctx.check('C03/two-dumps/no-error', False, '%s: %s' % (type(e).__name__, e)); ctx.reach(); return
+        codes, kexts, dyld, procs, images, logs, strings = expected_metadata(blocks)
+        L = 'C03/two-dumps/%s' % ('first' if i == 0 else 'second')
+        ctx.check(L + '/kexts', p.kernel_extensions == kexts, repr(p.kernel_extensions))
+        ctx.check(L + '/dyld', p.dyld_modules == dyld, repr(p.dyld_modules))
+        ctx.check(L + '/trace-codes', p.trace_codes == codes)
+        ctx.check(L + '/processes-images', p.processes == procs and p.images == images)
+        ctx.check(L + '/threads', dict(p.threads_pids.items()) == {0x77 + i: 7 + i})
+    ctx.reach()
+
+
 def run(ctx, st):
+    if st.get('kind') == 'two-dumps':
+        return run_two_dumps(ctx, st)
     from pykdebugparser.kd_buf_parser import KdBufParser
     from pykdebugparser.kevent import Kevent
     from pykdebugparser.os_log_event import OsLogEvent
